@@ -183,12 +183,44 @@ def judge(sysd, res, choices, angle_options):
     return viols, nres
 
 
+def second_pass(sysd, res, choices, angle_options):
+    """from a non-initial state: the residues of the finished system are moved and backmapped again with another factor
+    (public Backmap processor on the same topology); the atoms must follow - same oracle as after the first pass"""
+    top = res.get("topology")
+    if top is None or res["exc"] is not None or res["divergence"]:
+        return []
+    from polyply.src.backmap import Backmap
+    shift = np.array([0.35, -0.2, 0.15])
+    for mm in top.molecules:
+        for node in mm.nodes:
+            if mm.nodes[node].get("backmap", True):
+                mm.nodes[node]["position"] = np.asarray(mm.nodes[node]["position"], dtype=float) + shift
+    f2 = 1.0 if sysd["kwargs"]["bfudge"] != 1.0 else 0.5
+    state = np.random.get_state()
+    np.random.seed(12345)
+    try:
+        Backmap(fudge_coords=f2).run_system(top)
+    except Exception as exc:  # noqa
+        return [crash_violation(exc, dict(sys=sysd, choices=choices, second_pass=True), assertion="backmapping-does-not-crash", tags=["second-pass"])]
+    finally:
+        np.random.set_state(state)
+    s2 = dict(sysd, kwargs=dict(sysd["kwargs"], bfudge=f2))
+    v, _ = judge(s2, dict(res, topology=top), choices, angle_options)
+    for x in v:
+        x["tags"] = sorted(set(x["tags"]) | {"second-pass"})
+        x["message"] = "after moving the residues and backmapping again with factor %s: " % f2 + x["message"]
+        x["case"] = dict(sys=sysd, choices=choices, second_pass=True)
+    return v
+
+
 def run_case(case):
     sysd = case["sys"]
     opts = ANGLES_Q if case["tier"] == "quick" and not sysd.get("small_angles") else ANGLES_T
     if "choices" in case:
         res = run_exec(sysd, Chooser(case["choices"]), case.get("angle_options") or opts)
         v, _ = judge(sysd, res, case["choices"], opts)
+        if case.get("second_pass"):
+            v = second_pass(sysd, res, case["choices"], opts)
         return dict(evals=1, keys=[], violations=v, stats={})
     bounds = {"env": 1 if case["tier"] == "quick" else 2, "vec": 0, "grid": 0}
     evals, keys, viols, traces, ntrans = 0, set(), [], set(), 0
@@ -202,6 +234,10 @@ def run_case(case):
         for x in v:
             x["case"]["angle_options"] = opts
         stats["residues_checked"] += nres
+        if evals <= 3 and not sysd.get("input"):
+            v2 = second_pass(sysd, res, ch.choices(), opts)
+            stats["second_passes"] = stats.get("second_passes", 0) + 1
+            v = v + v2
         if len(viols) < 20:
             viols += v
         traces.add(tuple(ch.choices()))
